@@ -1,5 +1,5 @@
 """property id -> suites, evidence rule, trusted base additions"""
-from suites import props_tree, prims, monitor, legacy, c04, sk
+from suites import props_tree, prims, monitor, legacy, c04, sk, multiround
 
 RULE_TREE = ("random operation histories (weighted words over fit / refine / recluster / set_merge / setters / "
              "delete_internal_nodes / reset / malformed fit; feature counts 1..24, 63, 64, 65, 100, 256; prototype+noise, "
@@ -20,6 +20,13 @@ RULE_MON = ("the real monitor update step and the real get_peak_memory_gib run a
             "(sampled in quick tier), plus random longer schedules; reader results compared with the model's run for the same schedule; "
             "non-trivial = distinct schedule in which a reader returns a value")
 
+RULE_MR = ("generated multi-round workflows (1-5 input files of unequal sizes incl. 1-row files, F in {8,13,16,64}, packed/unpacked, bin sizes "
+           "1/2/3/10, 0-3 midsection rounds, refinement none/split/full, split-after-midsection, all six criteria per stage, threshold "
+           "changes of both signs, centroids on/off, cleanup on/off) run through the real run_multiround_bitbirch with an in-process pool "
+           "executing each round's tasks in a random order, compared FILE BY FILE (every round-* buffer/index file, clusters, centroids) "
+           "with the model's directory; re-run under other orders / real pools / shuffled listings; non-trivial = distinct successful "
+           "workflow with more than one input file")
+
 PROPS: dict = {
     "C01": {"suites": [props_tree.c01], "rule": RULE_TREE},
     "C02": {"suites": [props_tree.c02], "rule": RULE_TREE},
@@ -30,6 +37,8 @@ PROPS: dict = {
                     "also in a fresh subprocess; S-PAGES: .npy files on both sides of 2 MiB of rows fitted by path with "
                     "_madvise_dontneed wrapped; non-trivial = data set with a multi-member cluster / file with at least one release",
             "proof_modules": ["BBProps.C04", "BBProofs.Chunking", "BBProofs.MemPages"]},
+    "C05": {"suites": [multiround.suite_c05], "rule": RULE_MR, "proof_modules": ["BBProps.C05", "BBProofs.Multiround", "BBProofs.Names"]},
+    "C06": {"suites": [multiround.suite_c06], "rule": RULE_MR, "proof_modules": ["BBProps.C06", "BBProofs.Multiround", "BBProofs.Names"]},
     "C07": {"suites": [props_tree.c07, legacy.suite_legacy], "rule": RULE_TREE + "; S-LEGACY: bblean vs _legacy.bb_uint8 vs "
             "_legacy.bb_int64 on 2048-bit inputs (radius, diameter, tolerance-legacy), non-trivial = case with a multi-member cluster"},
     "C08": {"suites": [props_tree.c08], "rule": RULE_TREE},
@@ -37,6 +46,11 @@ PROPS: dict = {
     "C10": {"suites": [prims.suite_merge], "rule": RULE_MERGE},
     "C11": {"suites": [prims.suite_isim], "rule": RULE_PRIM},
     "C12": {"suites": [prims.suite_bits], "rule": RULE_PRIM},
+    "C14": {"suites": [multiround.suite_c14], "rule": RULE_MR + "; crash stream: for each small configuration a crash is injected before (or "
+            "half-way through) every file effect of bblean.multiround (buffer-file write, pickle dump, rename, unlink), in a directory "
+            "that already holds the outputs of an earlier run; then re-run to completion with same / changed-threshold / fewer-files "
+            "parameters and compare with a fresh-directory run; stale-directory stream: earlier run with more files and cleanup off",
+            "proof_modules": ["BBProps.C14", "BBProofs.Multiround", "BBProofs.Names"]},
     "C17": {"suites": [props_tree.c17], "rule": RULE_TREE + "; configuration stream: constructor with names / merge-function objects / "
             "no criterion x tolerance given or not, set_merge with every subset of its arguments, setters, reset"},
     "C18": {"suites": [sk.suite_sk, props_tree.c01],
